@@ -147,6 +147,8 @@ class State:
         #: context managers / locks currently held (terms), innermost last; recorded per condition and per event
         self.held: tuple = ()
         self.cond_held: list[tuple] = []
+        #: locks held when a volatile attribute was read: number of the ("read", k, key) term -> held
+        self.read_held: dict[int, tuple] = {}
 
     def clone(self) -> "State":
         s = State()
@@ -160,6 +162,7 @@ class State:
         s.defs = dict(self.defs)
         s.held = self.held
         s.cond_held = list(self.cond_held)
+        s.read_held = dict(self.read_held)
         return s
 
     # ---- queries
@@ -412,6 +415,7 @@ class Evaluator:
             k = f"{b[1]}.{e.attr}"
             if k in self.volatile and log:
                 st.nfresh += 1
+                st.read_held[st.nfresh] = st.held
                 return ("read", st.nfresh, k)
             if k in st.env:
                 return st.env[k]
